@@ -241,7 +241,9 @@ namespace bluetoe {
 
         template < std::uint16_t StartHandle, std::uint16_t StartIndex, typename ... Options >
         using next_char_mapping = interate_characteristic_index_mappings<
-                service_start_handle< StartHandle, StartIndex, Options... >::value + 1, StartIndex + 1,
+                // the service declaration and the include declarations are in front of the first characteristic
+                service_start_handle< StartHandle, StartIndex, Options... >::value + ::bluetoe::service< Options... >::number_of_service_attributes,
+                StartIndex + ::bluetoe::service< Options... >::number_of_service_attributes,
                 typename find_all_by_meta_type< characteristic_meta_type, Options... >::type >;
 
         /*
@@ -262,8 +264,9 @@ namespace bluetoe {
 
             static std::uint16_t characteristic_handle_by_index( std::size_t index )
             {
-                if ( index == StartIndex )
-                    return service_handle;
+                // service declaration followed by the include declarations
+                if ( index < StartIndex + service_t::number_of_service_attributes )
+                    return service_handle + ( index - StartIndex );
 
                 return next_char_mapping< StartHandle, StartIndex, Options... >::attribute_handle_by_index( index );
             }
@@ -272,6 +275,9 @@ namespace bluetoe {
             {
                 if ( handle <= service_handle )
                     return StartIndex;
+
+                if ( handle < service_handle + service_t::number_of_service_attributes )
+                    return StartIndex + ( handle - service_handle );
 
                 return next_char_mapping< StartHandle, StartIndex, Options... >::attribute_index_by_handle( handle );
             }
